@@ -85,9 +85,9 @@ _FULL = ("add", "rep", "ins", "plus", "wplus", "ctx", "ctor")
 _MENU4 = ("one", "join", "fork", "chain")
 PLANS = {
     "quick": [
-        dict(name="compose", ops=_FULL, kinds="PC", rep_kinds="PC", max_preds=2, menu=_MENU4, depth=3, max_tasks=9,
+        dict(name="compose", ops=_FULL, kinds="PCX", rep_kinds="PC", max_preds=2, menu=_MENU4, depth=3, max_tasks=9,
              max_dev=1, shard_depth=2),
-        dict(name="add", ops=("add",), kinds="PSCD", rep_kinds="", max_preds=2, menu=(), depth=4, max_tasks=4,
+        dict(name="add", ops=("add",), kinds="PSCDX", rep_kinds="", max_preds=2, menu=(), depth=4, max_tasks=4,
              max_dev=1, shard_depth=2),
         dict(name="add3", ops=("add",), kinds="PC", rep_kinds="", max_preds=3, menu=(), depth=4, max_tasks=4,
              max_dev=1, shard_depth=2),
@@ -103,11 +103,11 @@ PLANS = {
              menu=("join", "fork", "chain"), plus_menu=("fork",), depth=6, max_tasks=12, max_dev=1, shard_depth=3),
         dict(name="compose4", ops=("add", "rep", "ins", "plus", "ctx"), kinds="PC", rep_kinds="P", max_preds=2,
              ins_max_preds=1, menu=("join", "fork"), depth=4, max_tasks=12, max_dev=1, shard_depth=2),
-        dict(name="compose", ops=_FULL, kinds="PC", rep_kinds="PC", max_preds=2, menu=_MENU4, depth=3, max_tasks=9,
+        dict(name="compose", ops=_FULL, kinds="PCX", rep_kinds="PC", max_preds=2, menu=_MENU4, depth=3, max_tasks=9,
              max_dev=2, shard_depth=2),
         dict(name="add5", ops=("add",), kinds="PC", rep_kinds="", max_preds=2, menu=(), depth=5, max_tasks=5,
              max_dev=2, shard_depth=3),
-        dict(name="add", ops=("add",), kinds="PSCD", rep_kinds="", max_preds=2, menu=(), depth=4, max_tasks=4,
+        dict(name="add", ops=("add",), kinds="PSCDX", rep_kinds="", max_preds=2, menu=(), depth=4, max_tasks=4,
              max_dev=2, shard_depth=2),
     ],
 }
